@@ -3,6 +3,7 @@ CONSTANTS
   Procs <- P2
   Types <- RecTypes
   ChildSeq <- RecChild
+  Invalid <- NoneInvalid
   Pkg <- RecPkg
   CallChoices <- RecCalls2
   Guard = "none"
